@@ -628,7 +628,7 @@ def witness_cases():
     good_mp = lambda v: cp("cpu", [tt(), (v, A(I(1), I(2)))])
     good_lp = "cpu v=1i %d\ncpu v=2i %d\n" % (T0, T0 + 1)
     k = 0
-    for codec, bads in (("gzip", BAD_GZIP), ("zstd", BAD_ZSTD)):
+    for codec, bads in (("gzip", [BAD_GZIP[0], BAD_GZIP[1], BAD_GZIP[3]]), ("zstd", BAD_ZSTD[:2])):
         for bad in bads:
             for ep_bad, ep_good in (("mp", "mp"), ("lp", "lp"), ("lp", "mp"), ("mp", "lp")):
                 if k % 3 != 0 and (ep_bad, ep_good) in (("lp", "mp"), ("mp", "lp")):
@@ -639,6 +639,14 @@ def witness_cases():
                 valid2 = ev_mp(good_mp("v"), None, codec) if ep_good == "mp" else ev_lp(good_lp, None, "us", codec)
                 W.append({"family": "witness:undecompressable-then-valid-%s-%s-%s-%d" % (codec, ep_bad, ep_good, k), "max_rows": BIG,
                           "typed": True, "fresh": True, "events": [ev_badz(ep_bad, bad), valid, ev_badz(ep_good, bad), valid2, FLUSH]})
+    # line-protocol BOUNDARY stream (runs first every time): degenerate / truncated field values at end-of-body, before a
+    # newline, before a timestamp, as first and as later field, and as a tag value
+    lp_tokens = ['"', '""', '"\\', '"\\"', '"a', 'a"', '"a"b', '"a\\', '', '=', '=1i', ',', 'i', 'u', 't', 'f', 'T', 'F', '1', '-', '.', '1i',
+                 '1u', '-i', '\\', '"\\\\', '""a', '"="', '","', 'tr', 'Fa', '0x', '1.', 'ii', '"\n']
+    for n, v in enumerate(lp_tokens):
+        bodies = ["cpu msg=%s" % v, "cpu msg=%s\n" % v, "cpu msg=%s %d\n" % (v, T0 + n), "cpu ok=1i,msg=%s" % v, "cpu ok=1i,msg=%s\n" % v,
+                  "cpu msg=%s,ok=1i\n" % v, "cpu ok=1i,msg=%s %d\ncpu ok=2i %d\n" % (v, T0 + n, T0 + n + 1), "cpu,tg=%s ok=1i %d\n" % (v, T0 + n)]
+        add("lp-boundary-%d" % n, [ev_lp(b, None, "us") for b in bodies] + [FLUSH])
     # rejected request that stores rows
     add("partial-batch", [ev_mp(M(("batch", A(cp("aa", [tt(), ("v", A(I(1), I(2)))]), cp("bb", [tt(), ("v", A(I(1), S("s")))]))))), FLUSH])
     # decoder panic is recovered
@@ -1033,7 +1041,7 @@ def load_corpus():
 
 def run(res, tier, seed):
     rng = random.Random(seed * 7919 + 4)
-    nmodel, nmut = (380, 140) if tier == "quick" else (6000, 3000)
+    nmodel, nmut = (300, 120) if tier == "quick" else (6000, 3000)
     t1 = time.time()
     cases = witness_cases() + load_corpus()
     nfixed = len(cases)
